@@ -120,7 +120,8 @@ def _mkcal(spec):
 def _tmpdir():
     global TMP
     if TMP is None:
-        TMP = tempfile.mkdtemp(prefix='c08wav')
+        TMP = os.path.join(vlib.WORK, 'C08wav')
+        os.makedirs(TMP, exist_ok=True)
     return TMP
 
 
@@ -547,8 +548,128 @@ def _impl_reject(case):
         return {'exc': type(e).__name__, 'msg': str(e)[:100]}
 
 
+# ----------------------------------------------------------------------------------------------------------------
+# memoised paths (stim.fast_cache): sweeps in ONE process over arguments that are equal as dictionary keys (1, 1.0, True /
+# 0, 0.0, False), that merely share a hash (-1, -2, -1.0, -2.0), that come positionally or by keyword, and over distinct
+# calibration objects; every answer is judged for itself
+SWEEP = [-1, -2, -1.0, -2.0, 1, 1.0, True, 0, 0.0, False, 2, -2, -1, 60, 60.5]
+
+
+def _impl_cache(case):
+    from psiaudio import stim, util
+    from psiaudio.calibration import FlatCalibration
+    w = case['what']
+    levels = [SWEEP[i] for i in case['order']]
+    if w in ('wav', 'wavfactory'):
+        fs = case['file_fs']
+        path = _wavfile(case['file'], fs)
+        raw = np.asarray(stim.load_wav(fs, path), dtype=float)        # no calibration: the file itself, range -1 .. 1
+        cals = [FlatCalibration(case['s']), FlatCalibration(case['s']), FlatCalibration(case['s'] + 10.0)]
+        steps = []
+        for ci, cal in enumerate(cals):
+            for j, L in enumerate(levels if ci != 1 else levels[::-1]):
+                if w == 'wavfactory':
+                    y = stim.WavFileFactory(fs, path, L, cal, case['norm']).waveform
+                elif j % 2:
+                    y = stim.load_wav(fs, path, level=L, calibration=cal, normalization=case['norm'])     # keyword twin
+                else:
+                    y = stim.load_wav(fs, path, L, cal, case['norm'])
+                y = np.asarray(y, dtype=float)
+                got = {'rms': float(util.rms(y)), 'pe': float(np.max(y)), None: float(util.rms(y) / util.rms(raw))}[case['norm']]
+                steps.append({'L': float(L), 'kind': type(L).__name__, 'cal': ci, 'got': got, 'want': float(cal.get_sf(1e3, float(L))),
+                              'n': int(len(y))})
+        return {'steps': steps, 'n_raw': int(len(raw))}
+    if w == 'samenv':
+        fs, n, fm = case['fs'], case['n'], case['fm']
+        ref = np.asarray(stim.sam_envelope(-2, n + 6, fs, 1.0, fm, 0, False), dtype=float)
+        steps = []
+        for o in case['offsets']:
+            for depth, eq in ((1, False), (1.0, 0), (True, 0.0)):
+                e = np.asarray(stim.sam_envelope(o, n, fs, depth, fm, 0, eq), dtype=float)
+                steps.append({'o': o, 'depth': repr(depth), 'eq': repr(eq), 'n': int(len(e)),
+                              'dev': float(np.max(np.abs(e - ref[o + 2:o + 2 + n]))) if len(e) == n else None})
+        # the envelope around a carrier at each level of the sweep
+        cal = FlatCalibration(case['s'])
+        outs = []
+        for L in levels:
+            c = stim.ToneFactory(fs, 2000.0, L, 0.3, calibration=cal)
+            outs.append(np.asarray(stim.SAMEnvelopeFactory(fs, 1.0, fm, 0.0, 1, c).next(n), dtype=float))
+        base = outs[0] / cal.get_sf(2000.0, float(levels[0]))
+        return {'steps': steps, 'level_dev': [float(np.max(np.abs(o / cal.get_sf(2000.0, float(L)) - base))) for o, L in zip(outs, levels)],
+                'peak': float(np.max(np.abs(base)))}
+    if w == 'cos2env':
+        fs, n = case['fs'], case['n']
+        a = np.asarray(stim.cos2envelope(fs, 0.004, rise_time=0.001, start_time=0.002, samples=n), dtype=float)
+        b = np.asarray(stim.cos2envelope(fs, 0.004, rise_time=0.002, start_time=0.001, samples=n), dtype=float)
+        a2 = np.asarray(stim.cos2envelope(fs, 0.004, 0.001, 0, 0.002, n), dtype=float)
+        b2 = np.asarray(stim.cos2envelope(fs, 0.004, 0.002, 0, 0.001, n), dtype=float)
+        c1 = np.asarray(stim.cos2envelope(fs, 0.004, 0.001, samples=n, offset=1), dtype=float)
+        c0 = np.asarray(stim.cos2envelope(fs, 0.004, 0.001, samples=n + 1, offset=False), dtype=float)
+        cal = FlatCalibration(case['s'])
+        outs = []
+        for L in levels:
+            c = stim.ToneFactory(fs, 2000.0, L, 0.3, calibration=cal)
+            outs.append(np.asarray(stim.Cos2EnvelopeFactory(fs, 0.004, 0.001, c).next(n), dtype=float))
+        base = outs[0] / cal.get_sf(2000.0, float(levels[0]))
+        return {'kw_equal_pos': bool(np.array_equal(a, a2) and np.array_equal(b, b2)), 'swapped_differ': bool(not np.array_equal(a, b)),
+                'rise_a': int(np.argmax(a >= 1.0) - np.argmax(a > 0) + 1), 'start_a': int(np.argmax(a > 0)),
+                'rise_b': int(np.argmax(b >= 1.0) - np.argmax(b > 0) + 1), 'start_b': int(np.argmax(b > 0)),
+                'offset_shift': bool(np.array_equal(c1, c0[1:])),
+                'level_dev': [float(np.max(np.abs(o / cal.get_sf(2000.0, float(L)) - base))) for o, L in zip(outs, levels)],
+                'peak': float(np.max(np.abs(base)))}
+    if w == 'blnoise':
+        fs, n = 100000.0, case['n']
+        cal = FlatCalibration(case['s'])
+        outs = []
+        for j, L in enumerate(levels):
+            pa = [1, 1.0, True][j % 3]
+            f = stim.BandlimitedNoiseFactory(fs, case['seed'], L, 4000.0, 8000.0, 1, pa, [80, 80.0][j % 2], calibration=cal)
+            outs.append(np.asarray(f.next(n), dtype=float) / cal.get_mean_sf(4000.0, 8000.0, float(L)))
+        return {'level_dev': [float(np.max(np.abs(o - outs[0]))) for o in outs], 'peak': float(np.max(np.abs(outs[0])))}
+    raise KeyError(w)
+
+
+def _oracle_cache(case, res):
+    w = case['what']
+    tag = f"memoised path {w} ({ {k: v for k, v in case.items() if k not in ('kind', 'what', 'order')} })"
+    if w in ('wav', 'wavfactory'):
+        for i, st in enumerate(res['steps']):
+            if st['n'] != res['n_raw']:
+                return f'{tag}: request {i} (level {st["L"]} given as {st["kind"]}) returned {st["n"]} samples, the file has {res["n_raw"]}'
+            if not abs(st['got'] - st['want']) <= 2e-5 * st['want']:
+                prev = res['steps'][i - 1] if i else None
+                return (f'{tag}: request {i} in this process - level {st["L"]} dB given as {st["kind"]}, calibration object {st["cal"]} - '
+                        f'has {case["norm"]} value {st["got"]}, get_sf(1 kHz, level) = {st["want"]} '
+                        f'({20 * math.log10(st["got"] / st["want"]):+.3f} dB)'
+                        + (f'; the request before it was level {prev["L"]} ({prev["kind"]})' if prev else ''))
+        return None
+    if w == 'samenv':
+        for st in res['steps']:
+            if st['dev'] is None or not st['dev'] <= 1e-12:
+                return (f'{tag}: sam_envelope(offset={st["o"]}, depth={st["depth"]}, equalize={st["eq"]}) is not the fragment at that '
+                        f'offset of the envelope (deviation {st["dev"]})')
+    if w == 'cos2env':
+        if not res['kw_equal_pos']:
+            return f'{tag}: cos2envelope called with keywords differs from the same call with positional arguments'
+        if not res['swapped_differ'] or res['start_a'] <= res['start_b'] or res['rise_a'] >= res['rise_b']:
+            return (f'{tag}: cos2envelope(rise_time=1 ms, start_time=2 ms) and (rise_time=2 ms, start_time=1 ms) must differ: starts '
+                    f'{res["start_a"]} / {res["start_b"]}, rises {res["rise_a"]} / {res["rise_b"]} samples')
+        if not res['offset_shift']:
+            return f'{tag}: cos2envelope(offset=1) is not cos2envelope(offset=False) shifted by one sample'
+    tol = 1e-4 if w == 'blnoise' else 1e-12
+    for i, d in enumerate(res['level_dev']):
+        if not d <= tol * res['peak']:
+            return (f'{tag}: request {i} of the level sweep {[SWEEP[j] for j in case["order"]]} (level {SWEEP[case["order"][i]]!r}) is not '
+                    f'the first one scaled by the ratio of the scale factors: deviation {d} for a peak of {res["peak"]}')
+    return None
+
+
 def impl(case):
     import warnings
+    if case['kind'] == 'cache':
+        with warnings.catch_warnings():
+            warnings.simplefilter('ignore')
+            return _impl_cache(case)
     if case['kind'] == 'filter':
         return _impl_filter(case)
     if case['kind'] == 'reject':
@@ -736,6 +857,8 @@ def _oracle_reject(case, res):
 
 
 def oracle(case, res):
+    if case['kind'] == 'cache':
+        return _oracle_cache(case, res)
     if case['kind'] == 'filter':
         return _oracle_filter(case, res)
     if case['kind'] == 'reject':
@@ -1008,6 +1131,20 @@ def cases(tier, rng):
             reps = (1 if t in SLOW else 3) if quick else (6 if t in SLOW else 30)
             for _ in range(reps):
                 yield _stim_case(rng, t, which)
+    # memoised paths, each swept in one process
+    for norm in ('rms', 'pe', None):
+        for what in ('wav', 'wavfactory'):
+            if what == 'wavfactory' and norm is None:
+                continue
+            order = list(range(len(SWEEP)))
+            if rng.random() < 0.5:
+                order = order[:4][::-1] + order[4:]
+            yield {'kind': 'cache', 'what': what, 'norm': norm, 'file': rng.choice(['i16', 'f32']), 'file_fs': rng.choice([25000.0, 100000.0]),
+                   's': rng.choice([90.0, 93.37]), 'order': order}
+    yield {'kind': 'cache', 'what': 'samenv', 'fs': 100000.0, 'n': 12, 'fm': 10000.0, 'offsets': [-1, -2, 0, 1, 2, -1], 's': 93.37,
+           'order': list(range(len(SWEEP)))}
+    yield {'kind': 'cache', 'what': 'cos2env', 'fs': 100000.0, 'n': 420, 's': 90.0, 'order': list(range(len(SWEEP)))}
+    yield {'kind': 'cache', 'what': 'blnoise', 'n': 64, 's': 93.37, 'seed': rng.choice([0, 7]), 'order': list(range(len(SWEEP)))}
     for what in list(REJECTS) + list(ACCEPTS):
         yield {'kind': 'reject', 'what': what, 'cal': {'kind': 'flat', 's': 93.37, 'g': 0.0}}
     # every kind of level / polarity / rate argument, the falsy seed, the seconds-based twins with off-grid durations and the
